@@ -61,8 +61,10 @@ CurveFlags(e) ==
     /\ (e.opta = 4 => BLenBytes(c.a) <= e.w) /\ (e.optb = 4 => BLenBytes(c.b) <= e.w)
 (* advertised security level: not above half the bit length of the group order, and not absurdly below *)
 SecurityLevel(e) ==
+    \* generic attacks cost about sqrt(r): the advertised level is half the bit length of r, to the
+    \* customary rounding (Curve25519: r of 253 bits, BLS12-381: r of 255 bits, both "128")
     /\ e.level > 0
-    /\ 2 * e.level <= BBits(Ord(e))
+    /\ 2 * e.level <= BBits(Ord(e)) + 8
     /\ (e.pairf = 0 => 2 * e.level >= BBits(Ord(e)) - 16)
 (* the generator table used by fixed-base multiplication (single-table comb): t[j] = sum of
    [2^(i*l)]G over the set bits i of j, l = ceil(bits(r) / depth); first entries checked *)
